@@ -58,6 +58,7 @@ def instances(tier):
         out.append({"kind": "held_commands", "gen": g})
         out.append({"kind": "error_text_lost", "gen": g})
         out.append({"kind": "stale_buffered_frame", "gen": g})
+        out.append({"kind": "refresh_write_fails", "gen": g})      # the new connection dies at the refresh's own first write
     return out
 
 
@@ -78,6 +79,8 @@ def run(ctx, p):
         return _group_silence_reconnect(ctx, p)
     if p["kind"] == "group_silence_outage":
         return _group_silence_outage(ctx, p)
+    if p["kind"] == "refresh_write_fails":
+        return _refresh_write_fails(ctx, p)
     if p["kind"] == "flapping":
         return _flapping(ctx, p)
     if p["kind"] == "held_commands":
@@ -311,6 +314,36 @@ def _group_silence_outage(ctx, p):
         ok = ok and len(reqs) >= 1 and _b(reqs[-1] >= horizon - 300)
         ctx.check(ok, "at4.group_poll_after_300s", detail=detail)
         ctx.check(not rig.task_failures(), "at4.group_poll_after_300s", detail="unhandled exception in a client task")
+    for lab in expect_labels("quick"):
+        ctx.reach(lab)
+
+
+def _refresh_write_fails(ctx, p):
+    """The link is lost at a free instant; the console accepts the next connection, but that connection is reset at the first
+    (or second, solver-chosen) write made on it - the refresh requests themselves. The client connects once more, asks for AC
+    and zone status again, and the model converges on what the console reports."""
+    g = Gen(p["gen"])
+    inst = Installation.simple(g.n, n_acs=2, zones_per_ac=2)
+    t_drop = ctx.real("t_drop", 1, 200)
+    which = 1 + ctx.choice("failing_write", 2)
+    with ApiRig(ctx, g, inst) as rig:
+        con = rig.console
+        rig.net.on_drain = lambda conn, n: (ConnectionResetError("reset at write") if (conn.index == 1 and n == which) else None)
+        rig.start()
+        rig.run(0.5)
+        ctx.check(rig.init_result is True, "refresh.requests_first", detail="handshake failed")
+        inst.zone_status[2] = (r4.build_group_status(2, 3, 0, 7, 1, 1, 9, 1, 555, 1) if g.n == 4 else r5.build_zone_status(2, 3, 0, 7, 33, 1, 555, 1, 1))
+        rig.loop.vt_call_at(t_drop, lambda: rig.net.current().reset())
+        rig.run(t_drop + 12.0)
+        detail = {"failing_write": which, "conns": len(rig.net.conns), "requests": con.kinds()[-6:]}
+        ctx.observe("conns", len(rig.net.conns))
+        ctx.check(len(rig.net.conns) >= 3 and rig.net.max_open <= 1 and rig.at._socket.is_connected, "refresh.requests_first", detail=dict(detail, why="no healthy connection after the failed one"))
+        last = rig.net.conns[-1]
+        kinds = [k for t, k, _ in con.requests if _b(t >= last.opened_at)]
+        ctx.check(sorted(kinds[:2]) == ["ac_status", "zone_status"], "refresh.requests_first", detail=dict(detail, kinds=kinds))
+        z2 = rig.zone(2)
+        ctx.check(z2.current_damper_percentage == 7 and z2.current_temperature == 5.5, "refresh.model_converges", detail=dict(detail, damper=str(z2.current_damper_percentage)))
+        ctx.check(not rig.task_failures(), "refresh.requests_first", detail="unhandled exception")
     for lab in expect_labels("quick"):
         ctx.reach(lab)
 
